@@ -712,8 +712,21 @@ func main() {
 			allPF = append(allPF, popFile{k, a})
 		}
 	}
+	// three-file populations (thorough) use the boundary ages and a reduced set of
+	// trim records: the full product would be 3 million Trim calls
+	boundaryAge := map[int]bool{0: true, 3: true, 8: true, 10: true, 11: true, 13: true}
+	reducedRecs := []string{"<missing>", "abc", "-1h", "-24h", "+1h1s", "12345678901234567890123"}
 	rec = func(start int, cur []popFile) {
-		for _, tr := range trimRecs {
+		recs := trimRecs
+		if len(cur) == 3 {
+			for _, c := range cur {
+				if !boundaryAge[c.Age] {
+					return
+				}
+			}
+			recs = reducedRecs
+		}
+		for _, tr := range recs {
 			pops = append(pops, popCase{append([]popFile(nil), cur...), tr})
 		}
 		if len(cur) == maxFiles {
@@ -765,7 +778,7 @@ func main() {
 	r.Set("populations_checked", popDone)
 	r.Set("populations_total", len(pops))
 	r.Set("exhaustive", !r.Capped())
-	r.Set("explanation", "a step = optional clock advance from a 13-value delta alphabet (boundaries of 1h, 24h, 5d, 5d+1h) followed by one of Put/Get/GetBytes/GetFile/Trim; all histories up to the step counts in history_depths_completed (full delta alphabet to the smaller depth, the five boundary deltas one step deeper), deduplicated on the exact state (files, mtimes relative to the virtual clock, trim record, last-use model); every Trim call is judged against the statement's reference model. populations = all sets of <= 2 (thorough 3) files from 9 entry/non-entry kinds x 14 ages x 13 last-trim records, each followed by one Trim")
+	r.Set("explanation", "a step = optional clock advance from a 13-value delta alphabet (boundaries of 1h, 24h, 5d, 5d+1h) followed by one of Put/Get/GetBytes/GetFile/Trim; all histories up to the step counts in history_depths_completed (full delta alphabet to the smaller depth, the five boundary deltas one step deeper), deduplicated on the exact state (files, mtimes relative to the virtual clock, trim record, last-use model); every Trim call is judged against the statement's reference model. populations = all sets of <= 2 files from 9 entry/non-entry kinds x 14 ages x 13 last-trim records (thorough: also all sets of 3 files over the 6 boundary ages x 6 records), each followed by one Trim")
 	r.Assume("the clock is virtual (c.now replaced through an add-only export file, as the package's own tests do); file mtimes are real mtimes on the scratch file system")
 	r.Assume("a last-trim record that is missing, unparsable, >= 24h old or more than an hour in the future means no trim completed less than a day ago, so the trim must run; within an hour in the future either behaviour is accepted")
 	r.Finish()
